@@ -9,6 +9,7 @@ import (
 
 	"github.com/rs/zerolog/log"
 
+	"github.com/microsoft/yardl/tooling/internal/validation"
 	"github.com/microsoft/yardl/tooling/pkg/dsl"
 	"github.com/microsoft/yardl/tooling/pkg/packaging"
 	"github.com/spf13/cobra"
@@ -77,7 +78,7 @@ func validatePackage(packageInfo *packaging.PackageInfo) (*dsl.Environment, []st
 	for _, version := range packageInfo.Versions {
 		for _, label := range labels {
 			if label == version.Label {
-				return env, nil, fmt.Errorf("duplicate predecessor label %s", version.Label)
+				return env, nil, validation.NewValidationError(fmt.Errorf("duplicate predecessor label %s", version.Label), packageInfo.FilePath)
 			}
 		}
 		labels = append(labels, version.Label)
